@@ -169,10 +169,14 @@ Call(t) ==    /\ Busy(t) /\ Cur(t).k = "call"
                      runs == s.b \in MethodsOf(ty2) /\ Len(StepsOf(ty2, s.b)) > 0
                  IN stk' = [stk EXCEPT ![t] = IF runs THEN Append(Advanced(@), Frame(o2, ty2, s.b, p2)) ELSE Advanced(@)]
               /\ UNCHANGED <<scen, held, pend, secs>>
-Callback(t) == /\ Busy(t) /\ Cur(t).k = "cb"
+\* (also: going on past a step "exit" -- a return statement the extraction reached with the lock taken by an explicit
+\* Lock, not given back and no Unlock deferred: the method MAY end there, see Return)
+Callback(t) == /\ Busy(t) /\ Cur(t).k \in {"cb", "exit"}
                /\ stk' = [stk EXCEPT ![t] = Advanced(@)]
                /\ UNCHANGED <<scen, held, pend, secs>>
-Return(t) ==  /\ Busy(t) /\ Cur(t).k = "ret"
+\* the frame ends: after its last step, or at a step "exit" (an early return; the extraction emits the step only where
+\* no release is deferred, so nothing that would still run is skipped).  What the thread holds stays held: NoLeak
+Return(t) ==  /\ Busy(t) /\ Cur(t).k \in {"ret", "exit"}
               /\ stk' = [stk EXCEPT ![t] = SubSeq(@, 1, Len(@) - 1)]
               /\ UNCHANGED <<scen, held, pend, secs>>
 
@@ -218,9 +222,11 @@ SelfDeadlock(t) == /\ Busy(t) /\ Cur(t).k = "acq"
 NoSelfDeadlock  == \A t \in Threads : ~SelfDeadlock(t)
 
 Waiting(t) == Busy(t) /\ Cur(t).k = "acq" /\ ~CanAcq(t)
+\* (waiting for a lock that a FINISHED call kept is the consequence of a leak, reported as the leak it is: NoLeak)
 NoMutualDeadlock == ~ /\ \E t \in Threads : Busy(t)
                       /\ \A t \in Threads : Busy(t) => Waiting(t)
                       /\ \A t \in Threads : ~SelfDeadlock(t)
+                      /\ \A t \in Threads : ~Busy(t) => held[t] = <<>>
 
 NoLeak == \A t \in Threads : ~Busy(t) => held[t] = <<>> /\ pend[t] = <<>>
 
